@@ -4,7 +4,7 @@
    semiring column-DP theorem proofs/SemiringDP.v in the (min,+) semiring proofs/Tropical.v). *)
 From mathcomp Require Import all_ssreflect.
 From WH.Model Require Import PedMEC.
-From WH.Proofs Require Import PedMECProofs PedMECWitness.
+From WH.Proofs Require Import PedMECProofs PedMECWitness PedMECBounds.
 
 (* The instance used in the non-vacuity examples: a trio (father 0, mother 1, child 2), five
    columns, reads with interior gaps and different weights, trusted genotypes, non-zero
@@ -86,6 +86,14 @@ by exists v, beta, tau; split.
 Qed.
 Print Assumptions C01_opt_finite_attained.
 
+(* With a Mendelian conflict (some column admits no allele assignment under any transmission value)
+   the solver raises, and indeed no bipartition / transmission vector has finite cost. Together with
+   C01_dp_cost_optimal this characterises the outcome of every well-formed instance. *)
+Theorem C01_conflict_reported : forall I : inst,
+  ~~ no_conflict I -> dp_cost I = Conflict /\ opt_spec I = None.
+Proof. exact conflict_reported. Qed.
+Print Assumptions C01_conflict_reported.
+
 (* --- 2. witnesses ---------------------------------------------------------------------------- *)
 
 (* Every bipartition of the reads and every transmission vector costs at least the optimum: a
@@ -112,8 +120,8 @@ Theorem C01_dp_witness_achieves : forall I : inst,
   exists beta tau v,
     [/\ dp_witness I = Some (beta, tau), size beta = nreads I, size tau = i_ncols I,
         all (fun t => t < nT I) tau
-      & cost_of I beta tau = Some v /\ dp_cost I = Cost (Some v)].
-Proof. move=> I hwf hnc _; exact: (dp_witness_achieves hwf hnc). Qed.
+      & [/\ cost_of I beta tau = Some v, dp_cost I = Cost (Some v) & opt_spec I = Some v]].
+Proof. move=> I hwf hnc _; exact: (dp_witness_optimal hwf hnc). Qed.
 Print Assumptions C01_dp_witness_achieves.
 
 (* --- 3. alleles of the super reads ------------------------------------------------------------ *)
@@ -134,7 +142,23 @@ Theorem C01_alleles_non_tie_forced :
 Proof. exact alleles_non_tie_forced. Qed.
 Print Assumptions C01_alleles_non_tie_forced.
 
-(* --- 4. the evaluator used by the correspondence check ---------------------------------------- *)
+(* --- 4. the 32-bit guard --------------------------------------------------------------------- *)
+
+(* The code computes in `unsigned int` with UINT_MAX as infinity (and casts to int in get_alleles);
+   the model computes in nat + None. The theorems above are about the model; they speak about the code
+   as long as no value the solver forms reaches 2^31 - 1. This theorem bounds every finite value of the
+   forward pass of the model (current costs, projection columns, DP columns of every column) by
+   total_bound I = sum over columns of (weights of the column's entries + largest genotype costs
+   + 2 * #trios * recombination cost); no_overflow I is `total_bound I + 1 < 2^31`. The machine
+   arithmetic itself is not modelled: outside no_overflow nothing is claimed. *)
+Theorem C01_values_bounded : forall I : inst, wf I -> no_conflict I ->
+  forall recs, dp_forward I (iota 0 (i_ncols I)) (prev0 I) = Some recs ->
+  all (fun r => [&& table_le (total_bound I) (cr_lrows r), table_le (total_bound I) (cr_prev r)
+                  & table_le (total_bound I) (cr_col r)]) recs.
+Proof. exact values_bounded. Qed.
+Print Assumptions C01_values_bounded.
+
+(* --- 5. the evaluator used by the correspondence check ---------------------------------------- *)
 
 (* opt_fast (shares the per-column cost computers between all (beta, tau)) is what Coq evaluates on
    the implementation's outputs for the brute-force comparison; it is the specification optimum. *)
@@ -144,6 +168,9 @@ Print Assumptions C01_opt_fast_is_opt_spec.
 
 (* --- non-vacuity ------------------------------------------------------------------------------ *)
 Example C01_ex_trio_hyps : wf ex_trio && no_conflict ex_trio && no_overflow ex_trio.
+Proof. by vm_compute. Qed.
+Example C01_ex_trio_bound : total_bound ex_trio = 46 /\ total_bound ex_trio_gl = 127 /\
+  isSome (dp_forward ex_trio (iota 0 5) (prev0 ex_trio)).
 Proof. by vm_compute. Qed.
 Example C01_ex_trio_cost : dp_cost ex_trio = Cost (Some 2) /\ opt_spec ex_trio = Some 2.
 Proof. by vm_compute. Qed.
